@@ -142,4 +142,6 @@ package blockchain
 //@   assert@call reorganizeChain: ret(Cmp, 0) > 0 || (ret(Cmp, 0) == 0 && called(CmpBestBlock) && ret(CmpBestBlock) && node.height == ret(Tip).height)
 //@   assert@call reorganizeChain: arg1 == ret0(getReorganizeNodes) && arg2 == ret1(getReorganizeNodes)
 //@   ensures result2 == nil && result1 ==> called(connectBlock) || called(reorganizeChain)
+//@   ensures called(getLastFinalized) && ret(Cmp, 0) > 0 && old(node.height) >= ret0(getLastFinalized) + 12 ==> called(reorganizeChain)
+//@   ensures called(getLastFinalized) && (ret(Cmp, 0) < 0 || old(node.height) < ret0(getLastFinalized) + 12) ==> !called(reorganizeChain) && !called(connectBlock)
 //@   ensures called(connectBlock) ==> !called(reorganizeChain)
